@@ -5,6 +5,8 @@ CONSTANTS
   ArgSets <- ArgSetsQuick
   HdrPorts <- Ports16
   HdrChans <- Chans4
+  Links <- LinksNow
+  Cap = 1
   Chained = FALSE
   Bug = "thrust_clip"
 INVARIANT EmissionsOK
